@@ -204,13 +204,21 @@ def gen_plan(seed, n_ops=None):
     for _ in range(n_ops):
         kind = rng.choice(['merge', 'merge', 'zip', 'recompress', 'move',
                            'single_run', 'resume', 'cluster_rerun',
-                           'zip', 'recompress'])
+                           'zip', 'recompress', 'single_run',
+                           'killed_run', 'killed_merge'])
         op = {'op': kind, 'pick': rng.random(), 'pick2': rng.random(),
               'n': rng.choice([2, 2, 3, 5])}
-        if kind == 'single_run':
+        if kind in ('single_run', 'killed_run'):
             op['input'] = rng.randrange(I)
             op['trials'] = rng.randint(1, 6)
             op['ext'] = rng.choice(['.json', '.json.gz'])
+            # the same nominal error rates, written with float noise (what
+            # np.arange / 3*0.1 produce): still the same points
+            op['noisy'] = rng.random() < 0.4
+        if kind in ('killed_run', 'killed_merge'):
+            # the writer is killed right before moving a complete temporary
+            # file into place and is never started again
+            op['nth'] = rng.randint(0, 6)
         if kind == 'resume':
             op['extra'] = rng.randint(1, 4)
         if kind == 'cluster_rerun':
@@ -282,6 +290,15 @@ class Store:
                     os.path.join(self.data_dir, 'inputs',
                                  f'input_{i:02d}.json'),
                     canon(spec).encode())
+            for i, spec in enumerate(self.plan['inputs']):
+                noisy = json.loads(canon(spec))
+                noisy['ranges']['error_rate'] = [
+                    float(np.nextafter(r, 1.0))
+                    for r in noisy['ranges']['error_rate']]
+                self.sb.write_bytes(
+                    os.path.join(self.data_dir, 'inputs_noisy',
+                                 f'input_{i:02d}.json'),
+                    json.dumps(noisy).encode())
             if self.plan.get('long_input'):
                 self.sb.write_bytes(
                     os.path.join(self.data_dir, 'long', 'input_long.json'),
@@ -366,7 +383,8 @@ class Store:
         sim = self.sim
         sim.log.add('store', 'op', [idx, kind])
         before = self.snapshot_pool()
-        reshaping = kind in ('merge', 'zip', 'recompress', 'move')
+        reshaping = kind in ('merge', 'zip', 'recompress', 'move',
+                             'killed_merge')
         ok = True
         if kind in ('cluster_run', 'cluster_rerun'):
             ok = self.op_cluster(idx, op)
@@ -374,6 +392,10 @@ class Store:
             ok = self.op_single(idx, op)
         elif kind == 'long_run':
             ok = self.op_long(idx, op)
+        elif kind == 'killed_run':
+            ok = self.op_single(idx, op, kill=True)
+        elif kind == 'killed_merge':
+            ok = self.op_merge(idx, op, kill=True)
         elif kind == 'resume':
             ok = self.op_resume(idx, op)
         elif kind == 'merge':
@@ -496,22 +518,33 @@ class Store:
         return all(os.path.exists(os.path.join(self.res_dir, n))
                    for n in getattr(self, 'cluster_names', ['?']))
 
-    def _run_file(self, name, inp, out, n):
+    def _run_file(self, name, inp, out, n, fault=None):
         from panqec.simulation import run_file
-        proc = self.sim.new_proc(name)
+        proc = self.sim.new_proc(name, fault)
         kernel.set_current(proc)
         seams.clear_caches()
         try:
             run_file(inp, out, n, progress=seams.sim_progress)
+        except kernel.SimKill:
+            self.sim.probe('writer_killed_before_rename')
         finally:
             kernel.set_current(None)
+            gc.collect(0)
 
-    def op_single(self, idx, op):
+    def op_single(self, idx, op, kill=False):
         i = op['input']
-        inp = os.path.join(self.data_dir, 'inputs', f'input_{i:02d}.json')
+        sub = 'inputs_noisy' if op.get('noisy') else 'inputs'
+        inp = os.path.join(self.data_dir, sub, f'input_{i:02d}.json')
         out = os.path.join(self.res_dir, f'single_{idx}{op["ext"]}')
-        self._run_file(f'op{idx}-single', inp, out, op['trials'])
-        self.singles.append([out, i, op['trials']])
+        fault = None
+        if kill:
+            fault = {'kind': 'kill', 'at': 'kind', 'name': 'replace-pre',
+                     'event': op['nth']}
+        self._run_file(f'op{idx}-single', inp, out, op['trials'], fault)
+        if not kill:
+            self.singles.append([out, i, op['trials'], sub])
+        if op.get('noisy'):
+            self.sim.probe('run_with_float_noise_in_error_rate')
         return True
 
     def op_long(self, idx, op):
@@ -527,27 +560,38 @@ class Store:
         if not live:
             return False
         s = live[int(op['pick'] * len(live)) % len(live)]
-        inp = os.path.join(self.data_dir, 'inputs', f'input_{s[1]:02d}.json')
+        inp = os.path.join(self.data_dir, s[3], f'input_{s[1]:02d}.json')
         s[2] += op['extra']
         self._run_file(f'op{idx}-resume', inp, s[0], s[2])
         return True
 
-    def op_merge(self, idx, op):
+    def op_merge(self, idx, op, kill=False):
         import panqec.cli as pcli
         files = self.pick(self.plain_files(), op['pick'], op['n'])
         if len(files) < 1:
             return False
         ext = '.json.gz' if op['pick2'] < 0.5 else '.json'
         out = os.path.join(self.res_dir, f'merged_{idx}{ext}')
-        proc = self.sim.new_proc(f'op{idx}-merge')
+        fault = None
+        if kill:
+            fault = {'kind': 'kill', 'at': 'kind', 'name': 'replace-pre',
+                     'event': 0}
+        proc = self.sim.new_proc(f'op{idx}-merge', fault)
         kernel.set_current(proc)
+        killed = False
         try:
             pcli.merge_results.callback(result_files=tuple(files),
                                         output_file=out)
+        except kernel.SimKill:
+            killed = True
+            self.sim.probe('writer_killed_before_rename')
         finally:
             kernel.set_current(None)
-        for f in files:
-            sbx._real_remove(f)
+            gc.collect(0)
+        if not killed:
+            # (the originals are only removed once the merge has succeeded)
+            for f in files:
+                sbx._real_remove(f)
         return True
 
     def op_zip(self, idx, op):
@@ -653,15 +697,22 @@ class Store:
                 self.violate('duplicate_row', {'identity': x}, idx)
                 return
             rows[x] = row
-        exp_ids = {self._norm_ident(x) for x in exp}
+        # Analysis rounds error rates to six digits before grouping (float
+        # noise is not a different point): pool the expectation the same way
+        pooled = {}
+        for x, seq in sorted(exp.items()):
+            pooled.setdefault(self._norm_ident(x), []).extend(seq)
+        if len(pooled) < len(exp):
+            self.sim.probe('point_split_over_float_noise_rates')
+        exp_ids = set(pooled)
         if set(rows) != exp_ids:
             self.violate('row_set_differs', {
                 'missing': len(exp_ids - set(rows)),
                 'extra': len(set(rows) - exp_ids)}, idx)
             return
         shape = []
-        for x, seq in sorted(exp.items()):
-            row = rows[self._norm_ident(x)]
+        for x, seq in sorted(pooled.items()):
+            row = rows[x]
             self.rows_checked += 1
             self.check_row(idx, x, seq, row)
             if self.violations:
